@@ -49,6 +49,9 @@ func short(b []byte) string {
 
 type msg struct{ a, p []byte }
 
+// forceTagSecondHalf makes the receiver-side tamper of session() hit tag bytes 16..31.
+var forceTagSecondHalf bool
+
 // session runs msgs through a sender and a receiver created from the same key, judges every step
 // with the oracles and emits the sender's and the receiver's log as two model-compared cases.
 // tamper >= 0 makes the receiver see message #tamper with one flipped bit (it must reject, and the
@@ -85,7 +88,12 @@ func session(class string, key []byte, msgs []msg, tamper int, r *hv.Rand, allFl
 		desc += fmt.Sprintf(" | A[%d]=%s P[%d]=%s", len(m.a), short(m.a), len(m.p), short(m.p))
 		pCopy, aCopy := append([]byte{}, m.p...), append([]byte{}, m.a...)
 		rcvBefore := kravatte.VerifClone(rcv)
-		ct := snd.Seal(nil, nil, m.p, m.a)
+		var ct []byte
+		if pn, pmsg := hv.Catch(func() { ct = snd.Seal(nil, nil, m.p, m.a) }); pn {
+			v.fail("seal-or-open-panicked", fmt.Sprintf("message %d: Seal panicked: %s", i, pmsg))
+			hv.Emit(hv.Case{Class: class, Desc: "sender: " + desc, Spec: v.ok, Sig: v.sig, What: v.what, NT: true})
+			return
+		}
 		if !bytes.Equal(pCopy, m.p) || !bytes.Equal(aCopy, m.a) {
 			v.fail("seal-modified-caller-buffer", fmt.Sprintf("message %d: Seal(nil, ...) changed its plaintext or associated-data argument", i))
 		}
@@ -102,7 +110,11 @@ func session(class string, key []byte, msgs []msg, tamper int, r *hv.Rand, allFl
 			try := func(what string, c2, a2 []byte) {
 				flips++
 				x := kravatte.VerifClone(rcvBefore)
-				if pt, err := x.Open(nil, nil, c2, a2); err == nil {
+				var pt []byte
+				var err error
+				if pn, _ := hv.Catch(func() { pt, err = x.Open(nil, nil, c2, a2) }); pn {
+					v.fail("seal-or-open-panicked", fmt.Sprintf("message %d: Open panicked after %s", i, what))
+				} else if err == nil {
 					v.fail("tampered-message-accepted", fmt.Sprintf("message %d: Open accepted after %s (returned %s)", i, what, short(pt)))
 				}
 			}
@@ -130,9 +142,9 @@ func session(class string, key []byte, msgs []msg, tamper int, r *hv.Rand, allFl
 			seen, seenA = append([]byte{}, ct...), append([]byte{}, m.a...)
 			n := 8 * (len(seen) + len(seenA))
 			bit := r.Intn(n)
-			if r.Chance(40) { // favour the tag, in particular its second half
+			if forceTagSecondHalf || r.Chance(40) { // favour the tag, in particular its second half
 				bit = 8*(len(seen)-32) + r.Intn(256)
-				if r.Chance(50) {
+				if forceTagSecondHalf || r.Chance(50) {
 					bit = 8*(len(seen)-16) + r.Intn(128)
 				}
 			}
@@ -145,7 +157,13 @@ func session(class string, key []byte, msgs []msg, tamper int, r *hv.Rand, allFl
 			desc += fmt.Sprintf(" (receiver sees a flipped bit: ct=%s ad=%s)", short(seen), short(seenA))
 		}
 		seenCopy := append([]byte{}, seen...)
-		pt, err := rcv.Open(nil, nil, seen, seenA)
+		var pt []byte
+		var err error
+		if pn, pmsg := hv.Catch(func() { pt, err = rcv.Open(nil, nil, seen, seenA) }); pn {
+			v.fail("seal-or-open-panicked", fmt.Sprintf("message %d: Open panicked: %s", i, pmsg))
+			hv.Emit(hv.Case{Class: class, Desc: "receiver: " + desc, Spec: v.ok, Sig: v.sig, What: v.what, NT: true})
+			return
+		}
 		if !bytes.Equal(seenCopy, seen) {
 			v.fail("open-modified-caller-buffer", fmt.Sprintf("message %d: Open(nil, ...) changed its ciphertext argument", i))
 		}
@@ -373,6 +391,13 @@ func aliasCase(r *hv.Rand, plen, alen int) {
 		Spec: v.ok, Sig: v.sig, What: v.what, NT: true})
 }
 
+// guarded runs one generator item; a Go panic inside the code under test is an observation.
+func guarded(class, desc string, f func()) {
+	if pn, msg := hv.Catch(f); pn {
+		hv.Emit(hv.Case{Class: class, Desc: desc, Spec: false, Sig: sig("seal-or-open-panicked"), What: desc + ": panic: " + msg, NT: true})
+	}
+}
+
 func main() {
 	defer hv.Flush()
 	r := hv.NewRand(hv.Seed())
@@ -412,7 +437,7 @@ func main() {
 		if l%hv.Scale(2, 1) == 0 || l < 40 {
 			session("all-key-lengths", key, []msg{{r.Bytes(r.Intn(6)), r.Bytes(1 + r.Intn(24))}, {nil, r.Bytes(r.Intn(3))}}, -1, r, true)
 		}
-		keySensitivity(key, r)
+		guarded("key-sensitivity", fmt.Sprintf("key sensitivity, key[%d]=%x", l, key), func() { keySensitivity(key, r) })
 	}
 
 	// --- plaintext / associated-data lengths across the 200-byte block boundaries, multi-message sessions
@@ -446,6 +471,16 @@ func main() {
 		key := r.Bytes(hv.Pick(r, []int{16, 16, 32, 32, 1, 5, 17, 64, 199}))
 		session("multi-message-session", key, ms, tamper, r, r.Chance(hv.Scale(40, 100)))
 	}
+	// A flipped tag bit also changes the decryption stream (T keys it), so with a non-empty ciphertext the
+	// recomputed tag differs everywhere; only on EMPTY plaintexts is the tag compared against a value that
+	// does not depend on it.  These sessions put the receiver-side flip into tag bytes 16..31 of such a
+	// message (this is where a comparison truncated to 16 bytes shows in the model comparison as well).
+	forceTagSecondHalf = true
+	for i := 0; i < hv.Scale(16, 200); i++ {
+		ms := []msg{{r.Bytes(r.Intn(20)), r.Bytes(r.Intn(40))}, {r.Bytes(hv.Pick(r, []int{0, 0, 1, 8, 200})), nil}, {r.Bytes(r.Intn(4)), r.Bytes(r.Intn(20))}}
+		session("empty-plaintext-tag-tamper", r.Bytes(hv.Pick(r, []int{16, 32})), ms, 1, r, false)
+	}
+	forceTagSecondHalf = false
 	if hv.Thorough() { // maximum hop packet (transport.MaxPlaintextSize is about 64.5 kB)
 		for _, n := range []int{4000, 16384, 64478, 64479} {
 			session("max-packet", r.Bytes(16), []msg{{r.Bytes(12), r.Bytes(n)}}, -1, r, n < 20000)
@@ -457,12 +492,12 @@ func main() {
 	// --- aliasing
 	for _, n := range []int{0, 1, 31, 32, 33, 199, 200, 201, 400, 1400} {
 		for _, a := range []int{0, 1, 16, 200, 201} {
-			aliasCase(r, n, a)
+			guarded("aliasing", fmt.Sprintf("aliasing P[%d] A[%d]", n, a), func() { aliasCase(r, n, a) })
 		}
 	}
 
 	// --- the Kravatte object with chunked input and output
 	for i := 0; i < hv.Scale(120, 3000); i++ {
-		kravatteCase(r)
+		guarded("kravatte-chunked", "chunked Kra/Vatte sequence", func() { kravatteCase(r) })
 	}
 }
